@@ -8,7 +8,7 @@
    [run (init c t0) ops] is the list of their results, [final (init c t0) ops] the
    state afterwards; [capacity s now] is the code's maxFlight() evaluated at [now]. *)
 From Coq Require Import List ZArith QArith Bool.
-From GZ Require Import Lib.RollingWindow Lib.RollingWindowSpec C02.Model C02.Conc C02.Proofs C02.ProofsConc C02.ProofsConcHot C02.ProofsConcSat C02.Wrap C02.ProofsWrap.
+From GZ Require Import Lib.RollingWindow Lib.RollingWindowSpec C02.Model C02.Conc C02.Proofs C02.ProofsHist C02.ProofsConc C02.ProofsConcHot C02.ProofsConcSat C02.Wrap C02.ProofsWrap C02.Check C02.ProofsRef.
 Import ListNotations.
 Open Scope Z_scope.
 
@@ -226,6 +226,84 @@ Theorem group_one_shedder_per_key : forall keys k1 k2, In k1 keys -> In k2 keys 
   (first_index k1 keys 0 = first_index k2 keys 0 <-> k1 = k2).
 Proof. exact group_same_iff. Qed.
 
+(* ------------------------------------------------------------------ *)
+(* 9. History level, with nothing in the hypotheses but the history itself.
+
+      The moving average the shedder keeps is the exponential moving average (beta = flyingBeta) of
+      the in-flight count sampled at EVERY resolution - Pass and Fail alike - and the in-flight count
+      is admissions minus resolutions: both are functions of the list of results ([hist_avg]). *)
+Theorem avg_flying_is_moving_average : forall c t0 ops,
+  cenabled c = true ->
+  (flying (final (init c t0) ops), avgFlying (final (init c t0) ops)) = hist_avg 0 0%Q (run (init c t0) ops).
+Proof. exact hist_avg_init. Qed.
+
+(*    "When the CPU is overloaded and both the in-flight count and its moving average exceed the full
+      capacity estimate, Allow does shed" - for the k-th operation of EVERY history: in flight =
+      promises handed out before it minus promises resolved before it (each at most once), average =
+      [hist_avg] of the earlier results, capacity = the estimate of capacity_def at that moment. *)
+Theorem shed_when_saturated_in_history : forall c t0 ops k now cpu1 cpu2,
+  cenabled c = true ->
+  nth_error ops k = Some (OAllow now cpu1 cpu2) ->
+  let pre := firstn k ops in
+  let rs := run (init c t0) pre in
+  NoDup (resolved pre rs) ->
+  cthreshold c <= cpu1 ->
+  ~ (cthreshold c = cpuMax /\ cpu2 = cpuMax) ->
+  (capacity (final (init c t0) pre) now
+   < inject_Z (Z.of_nat (length (granted 0 rs)) - Z.of_nat (length (resolved pre rs))))%Q ->
+  (capacity (final (init c t0) pre) now < snd (hist_avg 0 0%Q rs))%Q ->
+  nth_error (run (init c t0) ops) k = Some RShed.
+Proof. exact saturated_history_core. Qed.
+
+(*    "Allow returns ErrServiceOverloaded only if ..." for the k-th operation of every history: the
+      witnesses (an earlier shed, an earlier overloaded Allow less than coolOffDuration before) are
+      operations with a smaller index; in flight and its average as above. *)
+Theorem shed_only_if_hot_and_loaded_in_history : forall c t0 ops k now cpu1 cpu2,
+  cenabled c = true ->
+  nth_error ops k = Some (OAllow now cpu1 cpu2) ->
+  nth_error (run (init c t0) ops) k = Some RShed ->
+  let pre := firstn k ops in
+  let rs := run (init c t0) pre in
+  (cthreshold c <= cpu1 \/
+   ((exists i, (i < k)%nat /\ nth_error (run (init c t0) ops) i = Some RShed) /\
+    (exists j tj cj cj2, (j < k)%nat /\ nth_error ops j = Some (OAllow tj cj cj2) /\
+                         cthreshold c <= cj /\ now - tj < coolOffDuration))) /\
+  (overloadFactorLowerBound * capacity (final (init c t0) pre) now
+   < inject_Z (count RAdmit rs - count RDone rs))%Q /\
+  (overloadFactorLowerBound * capacity (final (init c t0) pre) now < snd (hist_avg 0 0%Q rs))%Q.
+Proof. exact shed_only_history_core. Qed.
+
+(* 10. windowScale, as a formula in the configuration: (buckets per second) / (milliseconds per second)
+      = 10^6 / bucket duration in ns, in exact rationals - for every bucket duration, whether or not it
+      divides one second (Pinned.truncated_window_scale_sheds_below_ten_percent_refuted is the
+      integer-division variant). *)
+Theorem window_scale_is_buckets_per_second_over_1000 : forall c, 0 < bucket_duration c ->
+  (window_scale c == inject_Z (nsPerSecond / millisecondsPerSecond) / inject_Z (bucket_duration c))%Q /\
+  (window_scale c * inject_Z millisecondsPerSecond * inject_Z (bucket_duration c) == inject_Z nsPerSecond)%Q.
+Proof. exact window_scale_formula. Qed.
+
+(* 11. The reference computation Check.prop_ok judges the implementation with is the model's:
+      from the bare list of completed passes (interval index of the completion time, latency in ms),
+      newest first - no ring buffer -
+        Check.ref_peak_min = (maxPass(), minRt())  and
+        max(1, peak x minimum latency x 10^6 / bucket duration) = maxFlight()
+      on every history with non-decreasing pass times. *)
+Theorem reference_peak_and_latency_are_the_windows : forall c t0 ops now,
+  cenabled c = true -> 1 <= cbuckets c -> 0 < bucket_duration c ->
+  rw_mono t0 (passes (init c t0) ops) ->
+  rw_last_time t0 (passes (init c t0) ops) <= now ->
+  ref_peak_min c t0 now (ref_passes t0 (bucket_duration c) (passes (init c t0) ops)) =
+  (max_pass (final (init c t0) ops) now, min_rt (final (init c t0) ops) now).
+Proof. exact ref_peak_min_core. Qed.
+
+Theorem reference_capacity_is_capacity : forall c t0 ops now,
+  cenabled c = true -> 1 <= cbuckets c -> 0 < bucket_duration c ->
+  rw_mono t0 (passes (init c t0) ops) ->
+  rw_last_time t0 (passes (init c t0) ops) <= now ->
+  (at_least (ref_raw c (ref_peak_min c t0 now (ref_passes t0 (bucket_duration c) (passes (init c t0) ops)))) 1
+   == capacity (final (init c t0) ops) now)%Q.
+Proof. exact ref_capacity_core. Qed.
+
 Print Assumptions shed_only_if_hot_and_loaded.
 Print Assumptions shed_when_saturated.
 Print Assumptions flying_conservation_wf.
@@ -236,6 +314,12 @@ Print Assumptions shed_when_saturated_interleaved.
 Print Assumptions idle_never_sheds_interleaved.
 Print Assumptions wrapper_resolves_exactly_once.
 Print Assumptions wrapped_requests_leave_nothing_in_flight.
+Print Assumptions avg_flying_is_moving_average.
+Print Assumptions shed_when_saturated_in_history.
+Print Assumptions shed_only_if_hot_and_loaded_in_history.
+Print Assumptions window_scale_is_buckets_per_second_over_1000.
+Print Assumptions reference_peak_and_latency_are_the_windows.
+Print Assumptions reference_capacity_is_capacity.
 
 (* ------------------------------------------------------------------ *)
 (* The hypotheses are satisfiable by concrete, non-trivial histories.    *)
@@ -355,3 +439,26 @@ Example ex_serve :
              mkReq (B + 2) 0 0 (B + 7 * ms) ResPass] in
   flying (serve_all (init cfg1 B) qs) = 0 /\ nextId (serve_all (init cfg1 B) qs) = 6.
 Proof. vm_compute. split; reflexivity. Qed.
+
+(* the history-level theorems' hypotheses hold for hist1 followed by an overloaded Allow (index 30) *)
+Example ex_history_saturated :
+  let ops := hist1 ++ [OAllow (B + 150 * ms) 950 950] in
+  let pre := firstn 30 ops in
+  let rs := run (init cfg1 B) pre in
+  nth_error ops 30 = Some (OAllow (B + 150 * ms) 950 950) /\
+  length (granted 0 rs) = 20%nat /\ length (resolved pre rs) = 10%nat /\
+  fst (hist_avg 0 0%Q rs) = 10 /\
+  (capacity (final (init cfg1 B) pre) (B + 150 * ms) < snd (hist_avg 0 0%Q rs))%Q /\
+  nth_error (run (init cfg1 B) ops) 30 = Some RShed.
+Proof. vm_compute. repeat split; reflexivity. Qed.
+
+(* the reference computation on hist1: 10 passes of 5 ms in interval 0, read in interval 1 *)
+Example ex_reference :
+  ref_passes B (bucket_duration cfg1) (passes (init cfg1 B) hist1) = repeat (0, 5) 10 /\
+  ref_peak_min cfg1 B (B + 150 * ms) (repeat (0, 5) 10) = (10, 5) /\
+  Qeq (ref_scale cfg1) (1 # 100).
+Proof. vm_compute. repeat split; reflexivity. Qed.
+
+(* a bucket duration that does not divide one second: 600 ms -> windowScale = 1/600 *)
+Example ex_scale_600ms : Qeq (window_scale (mkCfg 3000000000 5 900 true)) (1 # 600).
+Proof. vm_compute. reflexivity. Qed.
